@@ -21,6 +21,7 @@ from lbry.wallet import coinselection
 from lbry.wallet.coinselection import CoinSelector
 from lbry.schema.purchase import Purchase
 from lbry.error import InsufficientFundsError
+from lbry.wallet.account import AddressManager
 
 import vlib
 
@@ -285,7 +286,7 @@ async def run_create(world, case, made=None):
     ledger.coin_selection_strategy = case['strategy']
     funding = [world.accounts[i] for i in case['funding']]
     change_acc = world.accounts[case['change']]
-    rows_before = await world.rows(funding)
+    rows_before = await world.rows(list(dict.fromkeys(funding)))     # an account listed twice owns each output once
     all_rows = await world.sql("SELECT rowid AS rid, txoid FROM txo")
     rid_of = {r['txoid']: r['rid'] for r in all_rows}
     est = await ledger.get_effective_amount_estimators(funding)
@@ -307,14 +308,37 @@ async def run_create(world, case, made=None):
         await world.sql("UPDATE pubkey_address SET used_times = 1, history = 'x:1:' WHERE address IN "
                         "(SELECT address FROM account_address WHERE account = ? AND chain = 0 ORDER BY n DESC LIMIT 3)",
                         (change_acc.id,))
+    offered_twice = sorted({x for x in est_order if est_order.count(x) > 1})
     tx, exc = None, None
     # injected faults at the signing step: a locked (encrypted) account, or inputs of the ghost account
     fault = bool(case.get('sign')) and (bool(case.get('locked')) or GHOST in case['funding'])
     if case.get('locked'):
-        for acc in funding:
+        for acc in dict.fromkeys(funding):
             acc.encrypt('password')
+    cancelled = False
     try:
-        if call is not None:
+        if case.get('cancel'):
+            # the caller cancels the build while it waits for its change address (request timeout, shutdown)
+            orig_ca, reached = AddressManager.get_or_create_usable_address, []
+
+            async def slow(self_):
+                reached.append(1)
+                await asyncio.sleep(3600)
+            AddressManager.get_or_create_usable_address = slow
+            try:
+                inner = asyncio.ensure_future(Transaction.create(pre, outs, funding, change_acc, sign=False))
+                while not inner.done() and not reached:
+                    await asyncio.sleep(0)
+                if not inner.done():
+                    inner.cancel()
+                    cancelled = True
+                try:
+                    tx = await inner
+                except asyncio.CancelledError:
+                    exc = 'SignFails'        # the model's outcome "fails after funding": everything is released
+            finally:
+                AddressManager.get_or_create_usable_address = orig_ca
+        elif call is not None:
             tx = await call
         else:
             tx = await Transaction.create(pre, outs, funding, change_acc, sign=bool(case.get('sign')))
@@ -325,7 +349,7 @@ async def run_create(world, case, made=None):
         obs_exc = type(e).__name__
     finally:
         if case.get('locked'):
-            for acc in funding:
+            for acc in dict.fromkeys(funding):
                 acc.decrypt('password')
     change_chain = None
     if tx is not None and len(tx.outputs) > len(outs):
@@ -338,7 +362,7 @@ async def run_create(world, case, made=None):
     res_after = await world.reserved_txoids()
     shuffles = [[[rid_of[i] for i in a], [rid_of[i] for i in b]] for a, b, _ in RecordingRandom.log]
     obs = {'rows_before': rows_before, 'rid_of': rid_of, 'est_order': est_order, 'pre_desc': pre_desc, 'outs': outs,
-           'change_chain': change_chain, 'outs_before': outs_before, 'tx': tx, 'exc': exc, 'res_before': res_before, 'res_after': res_after,
+           'cancelled': cancelled, 'offered_twice': offered_twice, 'change_chain': change_chain, 'outs_before': outs_before, 'tx': tx, 'exc': exc, 'res_before': res_before, 'res_after': res_after,
            'shuffles': shuffles, 'funding': funding, 'change_acc': change_acc, 'pre': pre,
            'unsignable': [r['rid'] for r in ghost_rows]}
     known = {r['rid'] for r in spendable_rows(rows_before)}
@@ -376,7 +400,8 @@ def model_create(model, case, obs):
     rows = obs['rows_before']
     req = dict(fpb=case['fpb'], fpnc=case['fpnc'], strategy=case['strategy'], shuffles=obs['shuffles'],
                pre=obs['pre_desc'], outs=[out_desc(o, None) for o in obs['outs']], wallet=model_wallet(rows),
-               sign=bool(case.get('sign')), locked=bool(case.get('locked')), unsignable=obs['unsignable'])
+               sign=bool(case.get('sign')) or obs['cancelled'], locked=bool(case.get('locked')) or obs['cancelled'],
+               unsignable=obs['unsignable'])
     try:
         m = model.call('create', **req)
     except vlib.ModelError as e:
@@ -439,6 +464,9 @@ def monitor(world, case, impl, obs):
         free = [r for r in free if r['txo_type'] == 0]
     all_positive = all(r['amount'] - fresh_in * fpb > 0 for r in free)
 
+    if obs.get('offered_twice'):
+        return ('the funding accounts offer output(s) %s more than once to the coin selection (an account listed twice): '
+                'one outpoint could be spent twice in one transaction' % obs['offered_twice'])
     if impl['result'] not in ('ok', 'InsufficientFundsError', 'SignFails'):
         return 'create failed with %s (only InsufficientFundsError is allowed)' % impl['result']
 
@@ -452,7 +480,7 @@ def monitor(world, case, impl, obs):
         expect = sorted(set(res_before) - set(pre_ids))
         if res_after != expect:
             return 'after the failure (%s) reserved=%s, expected %s (before %s minus the inputs of the tx)' % (
-                impl['result'], res_after, expect, res_before)
+                'cancelled by the caller' if obs.get('cancelled') else impl['result'], res_after, expect, res_before)
     if impl['result'] == 'SignFails':
         return None        # an injected fault; whether signing had to fail is the model's prediction
     if impl['result'] == 'InsufficientFundsError':
@@ -483,6 +511,16 @@ def monitor(world, case, impl, obs):
                 detail = ': requested amount %s name %r, on the wire amount %s name %r' % (want.amount, wn, got.amount, gn)
                 break
         return 'the requested outputs are not the unchanged prefix of the transaction outputs' + detail
+    try:
+        again = Transaction(tx.raw)
+        wire = [(o.amount, bytes(o.script.source)) for o in again.outputs]
+        wire_in = len(again.inputs)
+    except Exception as e:  # noqa
+        return 'the built transaction cannot be parsed back from its own bytes: %s' % type(e).__name__
+    if wire[:n_req] != obs['outs_before'] or len(wire) != len(tx.outputs) or wire_in != len(tx.inputs):
+        lens = [len(sc) for _, sc in obs['outs_before']]
+        return ('on the wire (tx.raw parsed again) the requested outputs are not there unchanged: %d outputs / %d inputs '
+                'instead of %d / %d; requested script lengths %s' % (len(wire), wire_in, len(tx.outputs), len(tx.inputs), lens))
     n_pre = len(pre_ids)
     if [t.txo_ref.id for t in tx.inputs[:n_pre]] != [t.txo_ref.id for t in obs['pre']]:
         return 'the pre-chosen inputs are not the unchanged prefix of the transaction inputs'
@@ -590,6 +628,27 @@ def gen_wallet(rng, fpb, n_accounts, size=None):
     return txs
 
 
+
+def tune_script_length(d, target):
+    """adjusts the payload (or the name) of a claim / update / support description until its script is exactly
+    [target] bytes long; returns False when that length cannot be hit"""
+    for _ in range(600):
+        n = len(make_outputs([d])[0].script.source)
+        if n == target:
+            return True
+        if d['kind'] == 'support':
+            k = len(d['name']) + (target - n)
+            if k < 1 or k > 255:
+                return False
+            d['name'] = 'n' * k
+        else:
+            p = d.get('payload', 0) + (target - n)
+            if p < 0:
+                return False
+            d['payload'] = p
+    return False
+
+
 def out_fee_guess(d, fpb, fpnc):
     o = make_outputs([d])
     return sum(real_out_fee(x, fpb, fpnc) for x in o), len(o)
@@ -652,6 +711,10 @@ def gen_case(rng, strategy, tier):
                                     '\U0001f600' * rng.choice([1, 5, 12]), '\u00e9' * rng.choice([2, 20, 60])])
         if k in ('claim', 'update'):
             d['payload'] = rng.choice([0, 10, 200, 300, 4000])
+        if k in ('claim', 'update', 'support') and rng.random() < 0.35:
+            # script lengths at the edge of the one-byte compact size (252 / 253 / 254 bytes)
+            if k == 'support' or d['name'].isascii():
+                tune_script_length(d, rng.choice([252, 253, 253, 254, 255]))
         case['outs'].append(d)
     # choose the amounts so that the deficit lands on an interesting value
     chosen = [p['ref'] for p in case['pre'] if p['kind'] == 'wallet']
@@ -706,6 +769,10 @@ def gen_case(rng, strategy, tier):
         case['sign'] = via in ('pay', 'purchase')
     if rng.random() < 0.1:
         case['change_used'] = True
+    if not case.get('via') and rng.random() < 0.07:
+        case['cancel'] = True
+    if rng.random() < 0.05:
+        case['funding'] = case['funding'] + [case['funding'][0]]        # the same account listed twice
     if case.get('via'):
         pass
     elif (not any(p['kind'] == 'external' for p in case['pre']) and rng.random() < 0.3
@@ -714,7 +781,9 @@ def gen_case(rng, strategy, tier):
     elif GHOST in funding and not any(p['kind'] == 'external' for p in case['pre']) \
             and all(txs[p['ref'][0]]['outs'][p['ref'][1]].get('kind') != 'claim' for p in case['pre']):
         case['sign'] = rng.random() < 0.8
-    if rng.random() < (0.3 if case['sign'] else 0.05):
+    if case.get('cancel'):
+        case['sign'] = False
+    elif rng.random() < (0.3 if case['sign'] else 0.05):
         case['locked'] = True           # wallet locked: funding works, signing cannot
     return case
 
@@ -823,7 +892,13 @@ def histogram(run, case, impl, obs):
         run.count('via Transaction.%s' % case['via'])
     if case.get('change_used'):
         run.count('all change addresses used before the build')
+    if obs.get('cancelled'):
+        run.count('build cancelled while waiting for its change address')
+    if len(set(case['funding'])) != len(case['funding']):
+        run.count('an account listed twice among the funding accounts')
     for o in obs['outs']:
+        if 252 <= len(o.script.source) <= 255:
+            run.count('requested script of %d bytes' % len(o.script.source))
         if o.script.is_claim_name:
             nm = o.script.values['claim_name']
             if len(nm) != len(nm.decode()):
@@ -842,14 +917,14 @@ async def check_create(run, world, model, case, kind):
     run.case(dict(case, origin=kind), nontrivial=nontrivial)
     histogram(run, case, impl, obs)
     # the order in which the model sees the wallet must be the order the implementation enumerates it
-    free_order = [r['rid'] for r in spendable_rows(obs['rows_before']) if not r['is_reserved']]
-    if free_order != obs['est_order']:
-        run.disagreement('C03.utxo_order', case, obs['est_order'], free_order)
-        return
     bad = monitor(world, case, impl, obs)
     if bad:
         sig = {'case': vlib.canon(case)}
         run.violation(case, bad, signature=sig)
+        return
+    free_order = [r['rid'] for r in spendable_rows(obs['rows_before']) if not r['is_reserved']]
+    if free_order != obs['est_order']:
+        run.disagreement('C03.utxo_order', case, obs['est_order'], free_order)
         return
     i, m = canon_pair(case, impl, mod)
     run.compare('C03.create', case, i, m)
@@ -891,7 +966,7 @@ def gen_pair_case(rng, strategy):
             if rng.random() < 0.7 else max(1, sum(e for e in effs if e > 0) // rng.choice([1, 2, 3]))
         builds.append({'outs': [{'kind': 'pay', 'amount': max(1, want - 44 * fpb)}]})
     return {'kind': 'pair', 'fpb': fpb, 'fpnc': 0, 'strategy': strategy, 'funding': [0], 'change': 0, 'txs': txs,
-            'reserved': [], 'builds': builds, 'seed': rng.getrandbits(32)}
+            'reserved': [], 'builds': builds, 'seed': rng.getrandbits(32), 'change_used': rng.random() < 0.3}
 
 
 async def check_pair(run, world, model, case, kind):
@@ -905,6 +980,9 @@ async def check_pair(run, world, model, case, kind):
     RecordingRandom.log = []
     RecordingRandom.source = random.Random(case.get('seed', 0))
     RecordingRandom.tagger = pair_tag.get
+    if case.get('change_used'):
+        await world.sql("UPDATE pubkey_address SET used_times = 1, history = 'x:1:' WHERE address IN "
+                        "(SELECT address FROM account_address WHERE account = ? AND chain = 1)", (funding[0].id,))
 
     async def one(i, d):
         pair_tag.set(i)
@@ -1003,6 +1081,30 @@ async def check_pair(run, world, model, case, kind):
     run.compare('C03.linearizable', case, impl, first)
 
 
+async def check_change_race(run, world, case, kind):
+    """every change address is used; k callers ask for a usable change address at once, as concurrent builds that all
+    need change do: none may fail (create would fail with it: 'never fails in any other way') and every address has to
+    be on the change chain"""
+    await world.reset()
+    acc = world.accounts[case['account']]
+    await world.sql("UPDATE pubkey_address SET used_times = 1, history = 'x:1:' WHERE address IN "
+                    "(SELECT address FROM account_address WHERE account = ? AND chain = 1)", (acc.id,))
+    got = await asyncio.gather(*[acc.change.get_or_create_usable_address() for _ in range(case['callers'])],
+                               return_exceptions=True)
+    run.case(dict(case, origin=kind), nontrivial=True)
+    run.count('concurrent change-address callers')
+    bad = None
+    for g in got:
+        if isinstance(g, Exception):
+            bad = 'asking for a usable change address failed with %s: a build that needs change would fail with it' % type(g).__name__
+        else:
+            rows = await world.sql("SELECT chain, account FROM account_address WHERE address = ?", (g,))
+            if [(r['chain'], r['account']) for r in rows] != [(1, acc.id)]:
+                bad = 'the change address %s is not on the change chain of the account' % g
+    if bad:
+        run.violation(case, bad, signature={'case': vlib.canon(case)})
+
+
 def check_sizes(run, model):
     """micro-correspondence: every size constant of the model against the real serialized objects"""
     txo = Transaction().add_outputs([Output.pay_pubkey_hash(COIN, b'\x01' * 20)]).outputs[0]
@@ -1043,6 +1145,8 @@ async def amain(run, only=None):
                 check_sizes(run, model)
             elif only.get('kind') == 'pair':
                 await check_pair(run, world, model, only, 'replay')
+            elif only.get('kind') == 'change_race':
+                await check_change_race(run, world, only, 'replay')
             else:
                 await check_create(run, world, model, only, 'replay')
             return
@@ -1055,6 +1159,8 @@ async def amain(run, only=None):
                 check_select(run, model, case, 'corpus')
             elif case.get('kind') == 'pair':
                 await check_pair(run, world, model, case, 'corpus')
+            elif case.get('kind') == 'change_race':
+                await check_change_race(run, world, case, 'corpus')
             else:
                 await check_create(run, world, model, case, 'corpus')
         n_create = vlib.scaled(run.tier, 190, 4000)
@@ -1063,6 +1169,8 @@ async def amain(run, only=None):
         for k in range(n_create):
             for s in strats:
                 await check_create(run, world, model, gen_case(rng, s, run.tier), 'generated')
+        for k in range(vlib.scaled(run.tier, 6, 100)):
+            await check_change_race(run, world, {'kind': 'change_race', 'account': rng.randrange(3), 'callers': rng.choice([2, 2, 3, 5])}, 'generated')
         for k in range(vlib.scaled(run.tier, 12, 300)):
             for s in strats:
                 await check_pair(run, world, model, gen_pair_case(rng, s), 'generated')
